@@ -159,35 +159,40 @@ class TxnType(DataflowTransactionContext):  # pylint: disable=too-few-public-met
                         APPLICATION_TRANSACTION_TYPES
                     ) - set([TealerTransactionType.ApplCreation])
 
-            if is_value_matches_key(key, arg1, TypeEnum) and value_3 is not None:
-                compared_type = transaction_type_to_tealer_type(value_3)
-                true_values, false_values = set([compared_type]), set(
-                    TYPEENUM_TRANSACTION_TYPES
-                ) - set([compared_type])
-            elif is_value_matches_key(key, arg2, TypeEnum) and value_2 is not None:
-                compared_type = transaction_type_to_tealer_type(value_2)
-                true_values, false_values = set([compared_type]), set(
-                    TYPEENUM_TRANSACTION_TYPES
-                ) - set([compared_type])
+            try:
+                if is_value_matches_key(key, arg1, TypeEnum) and value_3 is not None:
+                    compared_type = transaction_type_to_tealer_type(value_3)
+                    true_values, false_values = set([compared_type]), set(
+                        TYPEENUM_TRANSACTION_TYPES
+                    ) - set([compared_type])
+                elif is_value_matches_key(key, arg2, TypeEnum) and value_2 is not None:
+                    compared_type = transaction_type_to_tealer_type(value_2)
+                    true_values, false_values = set([compared_type]), set(
+                        TYPEENUM_TRANSACTION_TYPES
+                    ) - set([compared_type])
 
-            if true_values is not None and false_values is not None:
-                # TypeEnum does not say anything about OnCompletion: when the transaction can be an
-                # application call, it can have any of the application call types.
-                if TealerTransactionType.Appl in true_values:
-                    true_values = true_values | set(APPLICATION_TRANSACTION_TYPES)
-                if TealerTransactionType.Appl in false_values:
-                    false_values = false_values | set(APPLICATION_TRANSACTION_TYPES)
+                if true_values is not None and false_values is not None:
+                    # TypeEnum does not say anything about OnCompletion: when the transaction can be an
+                    # application call, it can have any of the application call types.
+                    if TealerTransactionType.Appl in true_values:
+                        true_values = true_values | set(APPLICATION_TRANSACTION_TYPES)
+                    if TealerTransactionType.Appl in false_values:
+                        false_values = false_values | set(APPLICATION_TRANSACTION_TYPES)
 
-            if is_value_matches_key(key, arg1, OnCompletion) and value_3 is not None:
-                compared_on_completion = oncompletion_to_tealer_type(value_3)
-                true_values, false_values = set([compared_on_completion]), set(
-                    APPLICATION_TRANSACTION_TYPES
-                ) - set([compared_on_completion])
-            elif is_value_matches_key(key, arg2, OnCompletion) and value_2 is not None:
-                compared_on_completion = oncompletion_to_tealer_type(value_2)
-                true_values, false_values = set([compared_on_completion]), set(
-                    APPLICATION_TRANSACTION_TYPES
-                ) - set([compared_on_completion])
+                if is_value_matches_key(key, arg1, OnCompletion) and value_3 is not None:
+                    compared_on_completion = oncompletion_to_tealer_type(value_3)
+                    true_values, false_values = set([compared_on_completion]), set(
+                        APPLICATION_TRANSACTION_TYPES
+                    ) - set([compared_on_completion])
+                elif is_value_matches_key(key, arg2, OnCompletion) and value_2 is not None:
+                    compared_on_completion = oncompletion_to_tealer_type(value_2)
+                    true_values, false_values = set([compared_on_completion]), set(
+                        APPLICATION_TRANSACTION_TYPES
+                    ) - set([compared_on_completion])
+            except KeyError:
+                # the field is compared with an integer which is not a transaction type or
+                # on-completion value (e.g `txn TypeEnum; int 7; ==`): the field is never equal to it.
+                true_values, false_values = set(), set(U)
 
             if true_values is not None and false_values is not None:
                 if isinstance(ins1, Eq):
